@@ -52,6 +52,8 @@ def tasks(tier, seed):
     P = families.value_programs(tier, seed)
     names = ["lorentz.ode", "fitzhughnagumo.ode", "beeler_reuter_1977.ode"] if tier == "quick" else None
     P += families.corpus(names)
+    from .. import gen
+    P += gen.programs(tier, seed, 300, 3000, "std") + gen.programs(tier, seed, 150, 1500, "full")
     out = [dict(p, opts={}) for p in P]
     # options of CodeGenerator.rhs / monitor_values that get_code does not expose: use_cse (documented flag)
     for t in CSE_MODELS:
